@@ -1,11 +1,11 @@
 // Package appc binds spec/app/AppContainer.tla to the real app.App (property C20).
 //
-//   TestReplay : every behaviour TLC emitted (component list, failure point, nesting) is
-//                executed on a real container; the observed call log, Start/Close results and
-//                name resolution must equal the behaviour, and the property predicates are
-//                evaluated on the real observations.
-//   TestRecord : random larger configurations are executed and their call logs written as an
-//                NDJSON trace that AppContainerTrace.tla validates.
+//	TestReplay : every behaviour TLC emitted (component list, failure point, nesting) is
+//	             executed on a real container; the observed call log, Start/Close results and
+//	             name resolution must equal the behaviour, and the property predicates are
+//	             evaluated on the real observations.
+//	TestRecord : random larger configurations are executed and their call logs written as an
+//	             NDJSON trace that AppContainerTrace.tla validates.
 package appc
 
 import (
@@ -32,14 +32,15 @@ type failSpec struct {
 	Idx  int    `json:"idx"`
 }
 type behaviour struct {
-	Comps     []compSpec     `json:"comps"`
-	Fail      failSpec       `json:"fail"`
-	Chain     [][]string     `json:"chain"`
-	Late      []int          `json:"late"`
-	Log       [][]any        `json:"log"`
-	StartErr  string         `json:"startErr"`
-	CloseErrs []int          `json:"closeErrs"`
-	Resolve   map[string]int `json:"resolve"`
+	Comps        []compSpec     `json:"comps"`
+	Fail         failSpec       `json:"fail"`
+	Chain        [][]string     `json:"chain"`
+	Late         []int          `json:"late"`
+	Log          [][]any        `json:"log"`
+	StartErr     string         `json:"startErr"`
+	CloseErrs    []int          `json:"closeErrs"`
+	Resolve      map[string]int `json:"resolve"`
+	ResolveEarly map[string]int `json:"resolveEarly"`
 }
 
 type call struct {
@@ -232,9 +233,9 @@ type named struct {
 }
 
 func (n *named) Init(a *app.App) error { return nil }
-func (n *named) Name() string           { return n.name }
+func (n *named) Name() string          { return n.name }
 
-func checkLookup(chain [][]string, late []int, resolve map[string]int) (string, string) {
+func checkLookup(chain [][]string, late []int, resolve, resolveEarly map[string]int) (string, string) {
 	// chain[0] = container under test, chain[k] = k-th parent; level numbers are 1-based.
 	// Levels in `late` register their components only after their child container was created.
 	isLate := map[int]bool{}
@@ -255,6 +256,17 @@ func checkLookup(chain [][]string, late []int, resolve map[string]int) (string, 
 		}
 		if !isLate[k+1] {
 			reg(k)
+		}
+	}
+	// early lookups (before the late levels register): the answer is that of the registrations made so far,
+	// and asking must not influence what a later lookup returns
+	for nm, want := range resolveEarly {
+		got := 0
+		if c := apps[0].Component(nm); c != nil {
+			got = c.(*named).level
+		}
+		if got != want {
+			return "lookup-order-early", fmt.Sprintf("early Component(%q) resolved at level %d, want %d (chain %v, late %v)", nm, got, want, chain, late)
 		}
 	}
 	for k := len(chain) - 1; k >= 0; k-- {
@@ -353,7 +365,7 @@ func TestReplay(t *testing.T) {
 		if (startErr == nil) != (b.StartErr == "none") {
 			rep.DriftNote("start error %v, spec %s", startErr, b.StartErr)
 		}
-		if k, d := checkLookup(b.Chain, b.Late, b.Resolve); k != "" {
+		if k, d := checkLookup(b.Chain, b.Late, b.Resolve, b.ResolveEarly); k != "" {
 			rep.Violate(k, d, b)
 		}
 		rep.Sample(map[string]any{"comps": b.Comps, "fail": b.Fail, "chain": b.Chain, "late": b.Late, "observed_log": fmt.Sprint(calls)})
